@@ -5,9 +5,11 @@ thread owns a binary semaphore and waits on it; the thread that reaches a *switc
 takes the scheduling decision itself (asks the ``chooser``), and either simply continues or
 wakes the chosen thread and goes to sleep on its own semaphore.  Switch points are
 
-* every ``line`` event (``sys.settrace``) in a frame whose code comes from the traced file
+* every ``LINE`` event (``sys.monitoring``) of a code object of the traced file
   (``supp/remote.py``) - all of them in ``full`` mode, only the lines of ``visible`` in
-  reduced mode,
+  reduced mode; in instruction mode instead every ``INSTRUCTION`` event (all of them, or
+  only the instructions that can touch shared state), which reaches the windows between two
+  bytecodes of one source line,
 * every blocking operation of the scheduler-aware ``SchedLock`` / ``SchedThread.join`` /
   a fake connection's ``recv`` - the thread parks with a *pending* operation and is enabled
   only when that operation can complete, so the enabled set is always known and
@@ -90,7 +92,6 @@ class _PoolThread(object):
             except BaseException:
                 pass
             _tls.ts = None
-            sys.settrace(None)
             _POOL.append(self)
 
 
@@ -105,7 +106,7 @@ def _run_pooled(job):
 
 class TState(object):
     __slots__ = ('sched', 'tid', 'name', 'kind', 'sem', 'done', 'pending', 'at', 'exc',
-                 'started', 'data', 'func')
+                 'started', 'data', 'func', 'midline', 'linepos')
 
     def __init__(self, sched, tid, name, kind):
         self.sched = sched
@@ -117,6 +118,8 @@ class TState(object):
         self.pending = None       # None | ('acquire', lock) | ('join', TState) | ('recv', obj)
         self.at = 'start'         # label of the point where the thread is parked
         self.func = ''
+        self.midline = False      # parked at an instruction that is not the first switch point of its line
+        self.linepos = {}         # id(frame) -> switch points passed since the frame's last line event
         self.exc = None
         self.started = False
         self.data = {}            # free for the harness (current operation etc.)
@@ -127,10 +130,19 @@ class Scheduler(object):
     just reached a switch point, or the driver at the very start); only a real context
     switch costs an OS-level hand-over."""
 
-    def __init__(self, chooser, traced_file, visible=None, line_access=None, max_steps=4000):
+    def __init__(self, chooser, traced_file, visible=None, line_access=None, max_steps=4000,
+                 instr=False, instr_info=None):
         """visible: set of line numbers that are switch points, or None = every line.
-        line_access: {lineno: (reads, writes)} static access sets (for sleep sets)."""
+        line_access: {lineno: (reads, writes)} static access sets (for sleep sets).
+        instr: switch points are bytecode instructions instead of lines;
+        instr_info(code) -> (set of instruction offsets that are switch points or None = every
+        instruction of the traced file, {offset: (reads, writes)} static access sets)."""
         self.chooser = chooser
+        self.instr = instr
+        self.instr_info = instr_info
+        self._ivis = {}
+        self.midline_preemptions = 0
+        self.midline_positions = set()
         self.traced_file = traced_file
         self.visible = visible
         self.line_access = line_access or {}
@@ -151,7 +163,6 @@ class Scheduler(object):
         self.error = None
         self.world = None         # harness object (fakes' state)
         self.on_step = None       # callback(ts, step_index) when a step is granted
-        self.line_hook = None     # callback(ts, frame) on every traced line (cheap monitors)
 
     # -- threads --------------------------------------------------------------------------
     def spawn(self, fn, name, kind):
@@ -168,11 +179,7 @@ class Scheduler(object):
             ts.done = True
             return
         try:
-            sys.settrace(self._global_trace)
-            try:
-                fn()
-            finally:
-                sys.settrace(None)
+            fn()              # switch points come from the sys.monitoring callbacks
         except SchedAbort:
             ts.done = True
             return
@@ -187,28 +194,6 @@ class Scheduler(object):
             _signal(self.back)
         else:
             _signal(nxt.sem)
-
-    def _global_trace(self, frame, event, arg):
-        if frame.f_code.co_filename == self.traced_file:
-            return self._local_trace
-        return None
-
-    def _local_trace(self, frame, event, arg):
-        if event == 'line':
-            ln = frame.f_lineno
-            ts = _tls.ts
-            vis = self.visible
-            if vis is None or ln in vis:
-                ts.at = ln
-                ts.func = frame.f_code.co_name
-                self.park(ts, None)
-            acc = self.line_access.get(ln)
-            if acc is not None:
-                self._r.update(acc[0])
-                self._w.update(acc[1])
-            if self.line_hook is not None:
-                self.line_hook(ts, frame)
-        return self._local_trace
 
     def park(self, ts, pending):
         """Switch point: decide who runs next; returns when this thread is granted a step."""
@@ -274,6 +259,9 @@ class Scheduler(object):
         t = enabled[idx]
         if cur_idx >= 0 and idx != cur_idx:
             self.preemptions += 1
+            if current.midline and current.pending is None:
+                self.midline_preemptions += 1
+                self.midline_positions.add('%s:%s' % (current.func, current.at))
         self.schedule.append(t.tid)
         p = t.pending
         self.trail.append((t.tid, t.at if p is None else '%s@%s' % (p[0], t.at)))
@@ -315,6 +303,117 @@ class Scheduler(object):
 
     def trail_hash(self):
         return hashlib.blake2b(repr(self.trail).encode(), digest_size=8).hexdigest()
+
+
+# Switch points come from sys.monitoring (PEP 669) LINE / INSTRUCTION / JUMP events, switched
+# on ONCE per process for the code objects of the traced file and never changed afterwards.
+# (Changing instrumentation while lingering threads still execute the code crashed CPython
+# 3.12.1 - frame.f_trace_opcodes under sys.settrace does exactly that - and sys.settrace(None)
+# silently drops other tools' INSTRUCTION instrumentation, so sys.settrace is not used.)
+# The callbacks are process-global; they act only in threads that currently run a job of a
+# Scheduler.
+MON_TOOL = 3
+_MON = {'on': False, 'lines': {}}
+
+
+def enable_monitoring(codes):
+    mon = sys.monitoring
+    if not _MON['on']:
+        mon.use_tool_id(MON_TOOL, 'vf-sched')
+        mon.register_callback(MON_TOOL, mon.events.INSTRUCTION, _on_instruction)
+        mon.register_callback(MON_TOOL, mon.events.LINE, _on_line)
+        mon.register_callback(MON_TOOL, mon.events.JUMP, _on_jump)
+        _MON['on'] = True
+    import dis
+    for code in codes:
+        if code in _MON['lines']:
+            continue
+        m = {}
+        line = code.co_firstlineno
+        for ins in dis.get_instructions(code):
+            pos = getattr(ins, 'positions', None)
+            if pos is not None and pos.lineno is not None:
+                line = pos.lineno
+            m[ins.offset] = line
+        _MON['lines'][code] = m
+        mon.set_local_events(MON_TOOL, code, mon.events.INSTRUCTION | mon.events.LINE | mon.events.JUMP)
+
+
+def code_objects_of(module_or_class, filename):
+    """all code objects defined in `filename` reachable from the functions of a module"""
+    import types
+    seen = []
+
+    def walk(code):
+        if code in seen or code.co_filename != filename:
+            return
+        seen.append(code)
+        for c in code.co_consts:
+            if isinstance(c, types.CodeType):
+                walk(c)
+
+    def visit(obj, depth=0):
+        for v in list(vars(obj).values()):
+            f = getattr(v, '__func__', v)
+            if isinstance(f, types.FunctionType):
+                walk(f.__code__)
+            elif isinstance(v, type) and depth < 3 and getattr(v, '__module__', None) == getattr(module_or_class, '__name__', None):
+                visit(v, depth + 1)
+    visit(module_or_class)
+    return seen
+
+
+def _on_instruction(code, offset):
+    ts = getattr(_tls, 'ts', None)
+    if ts is None:
+        return
+    s = ts.sched
+    if not s.instr:
+        return
+    info = s._ivis.get(code)
+    if info is None:
+        info = s._ivis[code] = s.instr_info(code)
+    vis, iacc = info
+    if vis is None or offset in vis:
+        fid = id(sys._getframe(1))
+        n = ts.linepos.get(fid, 0)
+        ts.linepos[fid] = n + 1
+        ts.at = '%d+%d' % (_MON['lines'][code].get(offset, 0), offset)
+        ts.func = code.co_name
+        ts.midline = n > 0
+        s.park(ts, None)
+    acc = iacc.get(offset)
+    if acc is not None:
+        s._r.update(acc[0])
+        s._w.update(acc[1])
+
+
+def _on_line(code, line):
+    ts = getattr(_tls, 'ts', None)
+    if ts is None:
+        return
+    s = ts.sched
+    if s.instr:
+        # accesses are attributed per instruction in this mode
+        ts.linepos[id(sys._getframe(1))] = 0
+        return
+    vis = s.visible
+    if vis is None or line in vis:
+        ts.at = line
+        ts.func = code.co_name
+        s.park(ts, None)
+    acc = s.line_access.get(line)
+    if acc is not None:
+        s._r.update(acc[0])
+        s._w.update(acc[1])
+
+
+def _on_jump(code, src, dst):
+    # like sys.settrace: a backward jump that stays on the same line starts the line again
+    if dst <= src:
+        m = _MON['lines'].get(code)
+        if m is not None and m.get(src) == m.get(dst) and getattr(_tls, 'ts', None) is not None:
+            _on_line(code, m.get(dst))
 
 
 # ---------------------------------------------------------------------------------------
@@ -493,6 +592,7 @@ def classify_lines(source):
 
     visible = set()
     access = {}
+    call_acc = {}     # accesses made through hasattr/getattr/setattr/delattr calls, per line
 
     def acc(line, var, write):
         r, w = access.setdefault(line, (set(), set()))
@@ -518,8 +618,14 @@ def classify_lines(source):
                 if len(node.args) >= 2 and isinstance(node.args[1], ast.Constant) and isinstance(node.args[1].value, str):
                     a = node.args[1].value
                     mark(node, ('attr', a), ATTR_FUNCS[node.func.id] == 'w', vis=a in shared)
+                    var, wr = ('attr', a), ATTR_FUNCS[node.func.id] == 'w'
                 else:
                     mark(node, ('attr', '*'), True)
+                    var, wr = ('attr', '*'), True
+                st = stmt_of(node)
+                for ln in {node.lineno, st.lineno if st is not None else node.lineno}:
+                    r, w = call_acc.setdefault(ln, (set(), set()))
+                    (w if wr else r).add(var)
             elif isinstance(node, ast.Name) and node.id in SYNC_NAMES and isinstance(node.ctx, ast.Load):
                 mark(node)
             elif (isinstance(node, ast.Call) and isinstance(node.func, ast.Attribute) and node.func.attr in SYNC_METHODS
@@ -534,8 +640,52 @@ def classify_lines(source):
         if ('attr', '*') in w:
             w = set(w) | {('attr', a) for a in shared}
         line_access[ln] = (frozenset(r), frozenset(w))
-    info = {'shared_attributes': sorted(shared), 'visible_lines': sorted(visible)}
+    call_access = {}
+    for ln, (r, w) in call_acc.items():
+        if ('attr', '*') in w:
+            w = set(w) | {('attr', a) for a in shared}
+        call_access[ln] = (frozenset(r), frozenset(w))
+    info = {'shared_attributes': sorted(shared), 'visible_lines': sorted(visible), 'call_access': call_access}
     return visible, line_access, info
+
+
+ATTR_OPS = ('LOAD_ATTR', 'STORE_ATTR', 'DELETE_ATTR', 'LOAD_METHOD', 'LOAD_SUPER_ATTR')
+CALL_OPS = ('CALL', 'CALL_FUNCTION_EX', 'CALL_KW', 'CALL_FUNCTION', 'CALL_METHOD', 'CALL_FUNCTION_KW',
+            'BEFORE_WITH', 'BEFORE_ASYNC_WITH', 'WITH_EXCEPT_START')
+
+
+def classify_instructions(code, shared, visible_lines, call_access=None):
+    """Returns (visible offsets, {offset: (reads, writes)}).
+
+    Visible = instructions of `code` that may touch state shared between threads: attribute
+    loads/stores/deletes of a shared attribute name (any receiver), and every call
+    instruction (incl. entering/leaving a `with`) on a line that classify_lines found
+    visible.  Everything else (stack shuffling, constants, jumps, locals) is thread-local.
+    Static access sets: attribute instructions access ('attr', name); call instructions get the
+    accesses that the line makes through hasattr/getattr/setattr/delattr (what the callee
+    itself does to locks, threads, the clock and the fakes is recorded dynamically)."""
+    import dis
+    call_access = call_access or {}
+    out = set()
+    iacc = {}
+    line = None
+    empty = frozenset()
+    for ins in dis.get_instructions(code):
+        if ins.starts_line is not None and not isinstance(ins.starts_line, bool):
+            line = ins.starts_line
+        pos = getattr(ins, 'positions', None)
+        ln = pos.lineno if pos is not None and pos.lineno is not None else line
+        if ins.opname in ATTR_OPS:
+            var = frozenset([('attr', ins.argval)])
+            iacc[ins.offset] = (empty, var) if ins.opname in ('STORE_ATTR', 'DELETE_ATTR') else (var, empty)
+            if ins.argval in shared:
+                out.add(ins.offset)
+        elif ins.opname in CALL_OPS:
+            if ln in call_access:
+                iacc[ins.offset] = call_access[ln]
+            if ln in visible_lines:
+                out.add(ins.offset)
+    return out, iacc
 
 
 UNIVERSAL = '*unknown*'
